@@ -150,6 +150,11 @@ Theorem C01_history_exec cfg ops n :
   Inv H_exec (fold_left (step H_exec) (firstn n ops) (init_state cfg)).
 Proof. apply C01_history; [apply H_exec_not_dir|apply H_exec_d2u_listing]. Qed.
 
+Theorem C01_history_checked_exec cfg ops n :
+  wf_hist_b H_exec (init_state cfg) ops = true ->
+  Inv H_exec (fold_left (step H_exec) (firstn n ops) (init_state cfg)).
+Proof. apply C01_history_checked; [apply H_exec_not_dir|apply H_exec_d2u_listing]. Qed.
+
 (* ------------------------------------------------------------------ non-vacuity *)
 (* a concrete history: stage a nested tree with dos2unix twins into a local md5-dos2unix store,
    save an index into a base md5 store, transfer, migrate into sha256 with hard links *)
@@ -164,19 +169,15 @@ Definition ex_ops : list op :=
     OMigrate 1 2 [] true ].
 
 (* the hypotheses of C01_history are satisfiable by it ... *)
+Example ex_wf_b : wf_hist_b H_exec (init_state ex_cfg) ex_ops = true.
+Proof. vm_compute. reflexivity. Qed.
 Example ex_wf : WfHist H_exec (init_state ex_cfg) ex_ops.
-Proof.
-  vm_compute. repeat split; try discriminate.
-  - intros s [= <-]. discriminate.
-  - intros s [= <-]. split; [|discriminate]. intros f [<-|[]]. reflexivity.
-  - intros s d [= <-] [= <-]. reflexivity.
-  - intros s [= <-]. reflexivity.
-Qed.
+Proof. apply wf_hist_b_sound. exact ex_wf_b. Qed.
 
-(* ... and it is not trivial: it ends with 2, 4 and 5 objects in the three stores, the migrated
-   ones of the base store now read-only through the shared inodes *)
+(* ... and it is not trivial: it ends with 2, 3 and 4 objects in the three stores (the twins
+   x CR LF y / x LF y share one md5-dos2unix name) *)
 Example ex_sizes :
-  map (fun s => length (s_objs s)) (st_stores (run H_exec (init_state ex_cfg) ex_ops)) = [2; 4; 5]%nat.
+  map (fun s => length (s_objs s)) (st_stores (run H_exec (init_state ex_cfg) ex_ops)) = [2; 3; 4]%nat.
 Proof. vm_compute. reflexivity. Qed.
 
 Example ex_inv : Inv H_exec (run H_exec (init_state ex_cfg) ex_ops).
